@@ -19,6 +19,10 @@ type c15Case struct {
 	// when set, S is entry Index of this allowed list and the call is Satisfies("MIT", Allowed)
 	Allowed []string `json:"allowed,omitempty"`
 	Index   int      `json:"index,omitempty"`
+	// the keyword before the bad token is written directly against it ("ORFOO"): which part of that word
+	// is 'the offending lexeme' is open, so any cited lexeme that stands at the cited offset and covers
+	// part of the bad token is accepted
+	Glued bool `json:"glued,omitempty"`
 }
 
 var offRe = regexp.MustCompile(`offset (\d+)`)
@@ -28,7 +32,7 @@ func isIDChar(b byte) bool {
 	return (b >= 'a' && b <= 'z') || (b >= 'A' && b <= 'Z') || (b >= '0' && b <= '9') || b == '-' || b == '.'
 }
 
-func c15Judge(s, errText, bad, kind string) string {
+func c15Judge(s, errText, bad, kind string, at int, glued bool) string {
 	m := offRe.FindStringSubmatch(errText)
 	if m == nil {
 		return fmt.Sprintf("error %q cites no offset although the only defect of %q is the identifier %q", errText, s, bad)
@@ -43,6 +47,15 @@ func c15Judge(s, errText, bad, kind string) string {
 			return fmt.Sprintf("error %q does not name the unknown identifier %q of %q", errText, bad, s)
 		}
 		lex := u[1]
+		if glued {
+			if k+len(lex) > len(s) || s[k:k+len(lex)] != lex {
+				return fmt.Sprintf("error %q: the input %q does not have %q at offset %d", errText, s, lex, k)
+			}
+			if lex == "" || k+len(lex) <= at || k >= at+len(bad) {
+				return fmt.Sprintf("error %q cites %q at offset %d, which is no part of the offending identifier %q (offset %d) of %q", errText, lex, k, bad, at, s)
+			}
+			return ""
+		}
 		if lex != bad {
 			return fmt.Sprintf("error %q cites lexeme %q, the offending identifier of %q is %q", errText, lex, s, bad)
 		}
@@ -66,7 +79,7 @@ func c15Check(cs c15Case) (msg string, skip bool) {
 		if !r.IsErr {
 			return fmt.Sprintf("Satisfies(MIT, %q) accepted the bad entry %q", cs.Allowed, cs.S), false
 		}
-		if m := c15Judge(cs.S, r.Err, cs.Bad, cs.Kind); m != "" {
+		if m := c15Judge(cs.S, r.Err, cs.Bad, cs.Kind, cs.At, cs.Glued); m != "" {
 			return fmt.Sprintf("Satisfies(MIT, %q), entry %d: %s", cs.Allowed, cs.Index, m), false
 		}
 		return "", false
@@ -79,10 +92,10 @@ func c15Check(cs c15Case) (msg string, skip bool) {
 	if !r.IsErr || !e.IsErr {
 		return fmt.Sprintf("input %q with bad identifier %q was accepted (Satisfies err=%v, ExtractLicenses err=%v)", cs.S, cs.Bad, r.IsErr, e.IsErr), false
 	}
-	if m := c15Judge(cs.S, r.Err, cs.Bad, cs.Kind); m != "" {
+	if m := c15Judge(cs.S, r.Err, cs.Bad, cs.Kind, cs.At, cs.Glued); m != "" {
 		return "Satisfies: " + m, false
 	}
-	if m := c15Judge(cs.S, e.Err, cs.Bad, cs.Kind); m != "" {
+	if m := c15Judge(cs.S, e.Err, cs.Bad, cs.Kind, cs.At, cs.Glued); m != "" {
 		return "ExtractLicenses: " + m, false
 	}
 	return "", false
@@ -118,7 +131,7 @@ func init() {
 		ID:       "C15",
 		Title:    "error messages locate the offending text in the caller's own string",
 		Explorer: "E1 bounded-exhaustive enumeration of viable prefix x bad token x suffix x spacing, oracle on the error text vs the caller's string",
-		Rule: "prefix = every sequence of <= k items over 9 term forms (incl. synthesised and listed -or-later, '+', WITH, refs) and ( ) AND OR that ends where a term may start (checked with R-gram), bad token in {4 unknown ids, 4 missing-id forms}, suffix in {none, AND MIT} plus the closing parentheses, rendered loose / tight / padded; " +
+		Rule: "prefix = every sequence of <= k items over 9 term forms (incl. synthesised and listed -or-later, '+', WITH, refs) and ( ) AND OR that ends where a term may start (checked with R-gram), bad token in {4 unknown ids, 4 missing-id forms}, suffix in {none, AND MIT} plus the closing parentheses, rendered loose / tight / padded / glued (keyword written directly against the next token, where this tree accepts that); " +
 			"state = rendered string, transitions = Satisfies + ExtractLicenses; non-trivial = inputs whose prefix contains a rewritten (-or-later / +) form or a multi-byte spacing, i.e. where the scanner's private index and the caller's offset can differ",
 		Assumptions: []string{"the bad token is the only defect by construction (prefix viability is checked with R-gram)", "the offset is parsed from the message with /offset (\\d+)/, the lexeme with /unknown license '(.*)'/"},
 		Run:         c15Run,
@@ -130,7 +143,7 @@ func c15Run(c *Ctx) {
 	if c.Thorough() {
 		K = 8
 	}
-	c.Bound("space", map[string]any{"prefix_items": c15Items, "max_prefix_items": K, "bad_tokens": c15Bad, "renderings": []string{"loose", "tight", "padded"}})
+	c.Bound("space", map[string]any{"prefix_items": c15Items, "max_prefix_items": K, "bad_tokens": c15Bad, "renderings": []string{"loose", "tight", "padded", "glued (no space after AND/OR/WITH; only prefixes of <= 5 items that this tree accepts)", "glued-inner (the same, but the keyword right before the bad token keeps its space)"}})
 	itemTexts := append([][]string{}, c15Items...)
 	// spellings whose validity the properties leave open (deprecated id + suffix): if this tree
 	// accepts one, it is a legitimate prefix and the offsets after it must be right too
@@ -155,9 +168,35 @@ func c15Run(c *Ctx) {
 	rp := OpTok(")")
 	var idx int64
 	emit := func(prefix []Tok, open int) {
+		// "glued" rendering (no space after AND / OR / WITH): the grammar is silent on it, so such a
+		// prefix counts as valid only if this tree accepts it completed with a plain id
+		gluedOK := false
+		if len(prefix) > 0 && len(prefix) <= 5 {
+			probe := append(append([]Tok{}, prefix...), mit)
+			for i := 0; i < open; i++ {
+				probe = append(probe, rp)
+			}
+			if g := RenderGlued(probe); g != RenderLoose(probe) {
+				gluedOK = Valid1(g) == 1
+				if gluedOK {
+					c.Inc("glued_prefixes_accepted_by_this_tree")
+				} else {
+					c.Inc("glued_prefixes_rejected_by_this_tree")
+				}
+			}
+		}
 		for _, bad := range c15Bad {
 			for _, suf := range []int{0, 1} {
-				for _, rn := range []string{"loose", "tight", "padded"} {
+				for _, rn := range []string{"loose", "tight", "padded", "glued", "glued-inner"} {
+					if strings.HasPrefix(rn, "glued") && !gluedOK {
+						continue
+					}
+					renderBy := renderBy
+					if rn == "glued-inner" {
+						// keywords inside the prefix are glued, the one right before the bad token is not
+						keep := len(prefix) - 1
+						renderBy = func(_ string, seq []Tok) string { return RenderGluedExcept(seq, keep) }
+					}
 					// render prefix, then the bad token, then the suffix, tracking where the bad token lands
 					badTok := Tok{Text: bad.tok, K: TUnknown}
 					seq := append(append([]Tok{}, prefix...), badTok)
@@ -180,7 +219,7 @@ func c15Run(c *Ctx) {
 					if !c.FirstTime(s) || !c.Begin(s) {
 						continue
 					}
-					cs := c15Case{S: s, Bad: bad.tok, Kind: bad.kind, At: at}
+					cs := c15Case{S: s, Bad: bad.tok, Kind: bad.kind, At: at, Glued: rn == "glued"}
 					msg, skip := c15Check(cs)
 					c.Inc("states")
 					c.Add("transitions", 2)
@@ -190,7 +229,7 @@ func c15Run(c *Ctx) {
 						continue
 					}
 					c.Add("traces", 2)
-					if strings.Contains(pre, "-or-later") || strings.Contains(pre, "+") || rn == "padded" {
+					if strings.Contains(pre, "-or-later") || strings.Contains(pre, "+") || rn == "padded" || strings.HasPrefix(rn, "glued") {
 						c.Inc("nontrivial")
 					}
 					c.Outcome(bad.kind + ":" + rn)
@@ -200,10 +239,10 @@ func c15Run(c *Ctx) {
 							GoTest: fmt.Sprintf("_, err := spdxexp.ExtractLicenses(%q) // %q is at offset %d", s, bad.tok, at)})
 					}
 					// the same string as an allowed-list entry, after entries that make the scanner rewrite its buffer
-					if len(prefix) <= 4 && (rn == "loose" || (rn == "padded" && len(prefix) <= 2)) {
+					if len(prefix) <= 4 && (rn == "loose" || (rn == "glued" && len(prefix) <= 3) || (rn == "padded" && len(prefix) <= 2)) {
 						for _, before := range c15Before {
 							al := append(append([]string{}, before...), s)
-							cs2 := c15Case{S: s, Bad: bad.tok, Kind: bad.kind, At: at, Allowed: al, Index: len(before)}
+							cs2 := c15Case{S: s, Bad: bad.tok, Kind: bad.kind, At: at, Allowed: al, Index: len(before), Glued: rn == "glued"}
 							msg2, skip2 := c15Check(cs2)
 							c.Inc("states")
 							c.Inc("transitions")
